@@ -125,15 +125,15 @@ fn battery(d: &mut Ddnnf, s: &mut String, sample_seed: u64) {
     let mut core: Vec<i32> = d.get_core().into_iter().collect();
     core.sort();
     writeln!(s, "b core {}", join(&core)).unwrap();
-    // one full enumeration cycle from a fresh cursor
-    crate::common::reset_cursor();
+    // one full enumeration cycle from a fresh cursor (the instance is long-lived: its own cursor is reset)
+    crate::common::reset_cursor(d);
     let amount = rc.to_usize().unwrap_or(0).clamp(1, 5000);
     match guarded(|| d.enumerate(&mut vec![], amount)) {
         Ok(Some(l)) => writeln!(s, "b enum {}", fmt_cfgs(&l)).unwrap(),
         Ok(None) => writeln!(s, "b enum none").unwrap(),
         Err(e) => writeln!(s, "b enum panic {}", e).unwrap(),
     }
-    crate::common::reset_cursor();
+    crate::common::reset_cursor(d);
     // seeded samples
     for k in 0..2u64 {
         let seed = sample_seed.wrapping_add(k) % 1000;
